@@ -95,6 +95,19 @@ func runGateway(e *federation.Executor, text string) (r ex.Run) {
 	return
 }
 
+// runGatewayWatched gives the gateway 60 s for one (tiny) query; a gateway that is still busy then is
+// recorded as outcome "hang" (the single server answers these queries in well under a millisecond).
+func runGatewayWatched(e *federation.Executor, text string) (ex.Run, bool) {
+	ch := make(chan ex.Run, 1)
+	go func() { ch <- runGateway(e, text) }()
+	select {
+	case r := <-ch:
+		return r, false
+	case <-time.After(60 * time.Second):
+		return ex.Run{Outcome: "hang", Err: "the gateway did not answer within 60 s", Res: tj.T{K: "n"}, Modes: map[string]string{}}, true
+	}
+}
+
 func runMonolith(schema *graphql.Schema, text string) (r ex.Run) {
 	r.Res = tj.T{K: "n"}
 	r.Modes = map[string]string{}
@@ -424,7 +437,7 @@ func Main(args []string) error {
 			subMu.Lock()
 			subs = nil
 			subMu.Unlock()
-			gr := runGateway(e, text)
+			gr, hung := runGatewayWatched(e, text)
 			subMu.Lock()
 			sort.Slice(subs, func(a, b int) bool {
 				if subs[a].Svc != subs[b].Svc {
@@ -439,6 +452,12 @@ func Main(args []string) error {
 			mr.Sched = "monolith"
 			rec.Runs = []ex.Run{gr, mr}
 			w.Write(rec)
+			if hung {
+				// the planner/executor is still spinning on a goroutine that cannot be stopped: the
+				// record says so, and the driver ends here rather than compete with it for the CPUs
+				cancel()
+				return w.Close()
+			}
 		}
 		cancel()
 	}
